@@ -13,7 +13,7 @@ use serde::{Deserialize, Serialize};
 #[derive(Clone, Debug, Serialize, Deserialize)]
 pub enum Step { Change { new_pw: u8 }, ChangeWrongOld { new_pw: u8 }, ChangeMissingNew, ExtractPub, ExtractPubWrongPw, UseKey }
 #[derive(Clone, Debug, Serialize, Deserialize)]
-pub struct History { pub from_generate: bool, pub key: u64, pub first_pw: u8, pub passwords: Vec<String>, pub steps: Vec<Step> }
+pub struct History { pub from_generate: bool, pub key: u64, pub first_pw: u8, pub passwords: Vec<String>, pub steps: Vec<Step>, #[serde(default)] pub env_keyring: u8 }
 
 fn contains_secret(hay: &[u8], sk: &[u8; 32]) -> Option<&'static str> {
     let find = |n: &[u8]| hay.windows(n.len()).any(|w| w == n);
@@ -25,6 +25,19 @@ fn contains_secret(hay: &[u8], sk: &[u8; 32]) -> Option<&'static str> {
     None
 }
 
+/// A key-management command under an environment that carries an unrelated KESTREL_KEYRING (the key commands take no
+/// keyring: USAGE lists the variable for encrypt / decrypt only): 1 = missing file, 2 = garbage, 3 = a keyring that does not parse, 4 = a valid one.
+fn keycmd(sb: &Sandbox, env_keyring: u8, a: &[&str]) -> crate::cli::Cmd {
+    let c = sb.cmd(a);
+    match env_keyring % 5 {
+        1 => c.env("KESTREL_KEYRING", "no-such-keyring.txt"),
+        2 => { sb.write("garbage.kr", &[0xff, 0xfe, 0x00, 0x5b]); c.env("KESTREL_KEYRING", "garbage.kr") }
+        3 => { sb.write("broken.kr", format!("[Key]\nName = a\nPublicKey = {0}\nPrivateKey = x\nPrivateKey = y\n", kspec::encode_public_key(&[7u8; 32])).as_bytes()); c.env("KESTREL_KEYRING", "broken.kr") }
+        4 => { sb.write("other.kr", format!("[Key]\nName = somebody\nPublicKey = {}\n", kspec::encode_public_key(&kspec::x25519_base(&[7u8; 32]))).as_bytes()); c.env("KESTREL_KEYRING", "other.kr") }
+        _ => c,
+    }
+}
+
 pub fn check(h: &History) -> CheckResult {
     if h.passwords.is_empty() { return ok(false, "no-passwords"); }
     let pw = |i: u8| -> &str { &h.passwords[i as usize % h.passwords.len()] };
@@ -32,7 +45,7 @@ pub fn check(h: &History) -> CheckResult {
     let mut outputs: Vec<u8> = Vec::new();
     // start: a generated key or a given one
     let (sk, mut locked, gen_pub_line): ([u8; 32], String, Option<String>) = if h.from_generate {
-        let r = sb.cmd(&["key", "generate", "-o", "k.txt", "--env-pass"]).env("KESTREL_PASSWORD", pw(h.first_pw)).env("KESTREL_NEW_PASSWORD", "stale value of an earlier change-pass").stdin(In::Bytes(b"me\n".to_vec())).run();
+        let r = keycmd(&sb, h.env_keyring, &["key", "generate", "-o", "k.txt", "--env-pass"]).env("KESTREL_PASSWORD", pw(h.first_pw)).env("KESTREL_NEW_PASSWORD", "stale value of an earlier change-pass").stdin(In::Bytes(b"me\n".to_vec())).run();
         ensure!(r.code == Some(0), "key generate failed: {}", r.describe());
         outputs.extend_from_slice(&r.stdout); outputs.extend_from_slice(&r.stderr);
         let text = String::from_utf8(sb.read("k.txt").ok_or("no key file")?).map_err(|e| e.to_string())?;
@@ -54,7 +67,7 @@ pub fn check(h: &History) -> CheckResult {
     for st in &h.steps {
         match st {
             Step::Change { new_pw } => {
-                let r = sb.cmd(&["key", "change-pass", &locked, "--env-pass"]).env("KESTREL_PASSWORD", pw(cur)).env("KESTREL_NEW_PASSWORD", pw(*new_pw)).run();
+                let r = keycmd(&sb, h.env_keyring, &["key", "change-pass", &locked, "--env-pass"]).env("KESTREL_PASSWORD", pw(cur)).env("KESTREL_NEW_PASSWORD", pw(*new_pw)).run();
                 outputs.extend_from_slice(&r.stdout); outputs.extend_from_slice(&r.stderr);
                 ensure!(r.code == Some(0), "change-pass with the right old password failed: {}", r.describe());
                 let out = r.stdout_s(); let line = out.lines().find(|l| l.starts_with("PrivateKey = ")).ok_or_else(|| format!("change-pass printed no PrivateKey line: {:?}", out))?;
@@ -72,17 +85,19 @@ pub fn check(h: &History) -> CheckResult {
             }
             Step::ChangeWrongOld { new_pw } => {
                 let wrong = format!("{}~", pw(cur));
-                let r = sb.cmd(&["key", "change-pass", &locked, "--env-pass"]).env("KESTREL_PASSWORD", &wrong).env("KESTREL_NEW_PASSWORD", pw(*new_pw)).run();
+                // one time in three the new password is the wrong old one itself ("nothing to change" must not skip the unlock)
+                let newp = if *new_pw % 3 == 0 { wrong.clone() } else { pw(*new_pw).to_string() };
+                let r = keycmd(&sb, h.env_keyring, &["key", "change-pass", &locked, "--env-pass"]).env("KESTREL_PASSWORD", &wrong).env("KESTREL_NEW_PASSWORD", &newp).run();
                 outputs.extend_from_slice(&r.stdout); outputs.extend_from_slice(&r.stderr);
                 ensure!(r.code == Some(1) && !r.stdout_s().contains("PrivateKey"), "change-pass with a wrong old password: exit {:?}, stdout {:?}", r.code, r.stdout_s());
             }
             Step::ChangeMissingNew => {
-                let r = sb.cmd(&["key", "change-pass", &locked, "--env-pass"]).env("KESTREL_PASSWORD", pw(cur)).run();
+                let r = keycmd(&sb, h.env_keyring, &["key", "change-pass", &locked, "--env-pass"]).env("KESTREL_PASSWORD", pw(cur)).run();
                 outputs.extend_from_slice(&r.stdout); outputs.extend_from_slice(&r.stderr);
                 ensure!(r.code == Some(1) && !r.stdout_s().contains("PrivateKey"), "change-pass without KESTREL_NEW_PASSWORD: exit {:?}, stdout {:?}", r.code, r.stdout_s());
             }
             Step::ExtractPub => {
-                let r = sb.cmd(&["key", "extract-pub", &locked, "--env-pass"]).env("KESTREL_PASSWORD", pw(cur)).run();
+                let r = keycmd(&sb, h.env_keyring, &["key", "extract-pub", &locked, "--env-pass"]).env("KESTREL_PASSWORD", pw(cur)).run();
                 outputs.extend_from_slice(&r.stdout); outputs.extend_from_slice(&r.stderr);
                 ensure!(r.code == Some(0), "extract-pub failed: {}", r.describe());
                 ensure!(r.stdout_s().trim_end() == want_pub, "extract-pub printed {:?}, the key's public key in keyring encoding is {:?}", r.stdout_s().trim_end(), want_pub);
@@ -90,7 +105,7 @@ pub fn check(h: &History) -> CheckResult {
                 ensure!(kspec::decode_public_key(&want_pub["PublicKey = ".len()..]) == Some(pk), "printed public key is not the X25519 public key of the private key with a valid checksum");
             }
             Step::ExtractPubWrongPw => {
-                let r = sb.cmd(&["key", "extract-pub", &locked, "--env-pass"]).env("KESTREL_PASSWORD", &format!("{}~", pw(cur))).run();
+                let r = keycmd(&sb, h.env_keyring, &["key", "extract-pub", &locked, "--env-pass"]).env("KESTREL_PASSWORD", &format!("{}~", pw(cur))).run();
                 outputs.extend_from_slice(&r.stdout); outputs.extend_from_slice(&r.stderr);
                 ensure!(r.code == Some(1) && !r.stdout_s().contains("PublicKey"), "extract-pub with a wrong password: exit {:?}, stdout {:?}", r.code, r.stdout_s());
             }
@@ -117,7 +132,7 @@ pub fn strat() -> impl Strategy<Value = History> {
         .prop_map(|(from_generate, key, first_pw, mut passwords, steps)| { passwords.dedup();
             // near-duplicates in the same set: P, P+CR, P+blank (an unlock that "forgives" trailing white space would confuse them)
             if key % 3 == 0 { let p = passwords[0].clone(); passwords.push(format!("{}\r", p)); } if key % 5 == 0 { let p = passwords[0].clone(); passwords.push(format!("{} ", p)); }
-            History { from_generate, key, first_pw, passwords, steps } })
+            History { from_generate, key, first_pw, passwords, steps, env_keyring: if key % 2 == 0 { (key >> 8) as u8 % 5 } else { 0 } } })
 }
 
 pub fn run(ctx: &Ctx) {
@@ -125,8 +140,10 @@ pub fn run(ctx: &Ctx) {
     ctx.assume("Linux, no terminal; passwords via KESTREL_PASSWORD / KESTREL_NEW_PASSWORD (UTF-8 without NUL)");
     ctx.shrink_iters.store(30, std::sync::atomic::Ordering::Relaxed);
     ctx.sse_vec("near_duplicate_passwords", "P+CR -> P, P -> P+CR, P+blank -> P: the earlier spelling must stop working", vec![
-        History { from_generate: false, key: 1, first_pw: 1, passwords: vec!["s3cret".into(), "s3cret\r".into()], steps: vec![Step::Change { new_pw: 0 }, Step::ExtractPub] },
-        History { from_generate: false, key: 2, first_pw: 0, passwords: vec!["s3cret".into(), "s3cret\r".into()], steps: vec![Step::Change { new_pw: 1 }, Step::Change { new_pw: 0 }] },
-        History { from_generate: true, key: 3, first_pw: 1, passwords: vec!["pw".into(), "pw ".into()], steps: vec![Step::Change { new_pw: 0 }, Step::ExtractPub] }], check);
+        History { from_generate: false, key: 1, first_pw: 1, passwords: vec!["s3cret".into(), "s3cret\r".into()], steps: vec![Step::Change { new_pw: 0 }, Step::ExtractPub], env_keyring: 0 },
+        History { from_generate: false, key: 2, first_pw: 0, passwords: vec!["s3cret".into(), "s3cret\r".into()], steps: vec![Step::Change { new_pw: 1 }, Step::Change { new_pw: 0 }], env_keyring: 3 },
+        History { from_generate: true, key: 3, first_pw: 1, passwords: vec!["pw".into(), "pw ".into()], steps: vec![Step::Change { new_pw: 0 }, Step::ExtractPub], env_keyring: 1 },
+        History { from_generate: true, key: 4, first_pw: 0, passwords: vec!["pw".into(), "pw2".into()], steps: vec![Step::ExtractPub, Step::Change { new_pw: 1 }, Step::ExtractPub], env_keyring: 2 },
+        History { from_generate: false, key: 5, first_pw: 0, passwords: vec!["pw".into(), "pw2".into()], steps: vec![Step::ExtractPub, Step::Change { new_pw: 1 }, Step::ExtractPub, Step::UseKey], env_keyring: 4 }], check);
     ctx.pbt("change_pass_histories", ctx.n(160, 2_500), strat, check);
 }
